@@ -1,7 +1,7 @@
 (* C09 — facts about the emitter model (Model/Emitter.v) for ALL strings / integers. *)
 From Coq Require Import List NArith ZArith Bool Lia.
 Import ListNotations.
-Require Import Resolver CoreSchema CoreNumber ResolverProofs C08complete Escapes CharTraits Emitter.
+Require Import Resolver CoreSchema CoreNumber ResolverProofs C08complete Escapes CharTraits QuotedLine Emitter.
 Open Scope N_scope.
 Arguments N.eqb : simpl never.
 Arguments N.add : simpl never.
@@ -90,41 +90,7 @@ Qed.
 Lemma esc_keys_ascii : forallb (fun e => fst e <? 128) emit_escape_table = true.
 Proof. reflexivity. Qed.
 
-(* the scanner's reading of the body of a one-line double-quoted scalar (scanner.rs
-   consume_flow_scalar_non_whitespace_chars / resolve_flow_scalar_escape_sequence over Gen/Escapes.v): a backslash
-   starts an escape (single character of escape_table, or x/u/U followed by code_length hex digits giving a
-   Unicode scalar value); a bare double quote would end the scalar; a line break would start folding *)
-Fixpoint assoc_c (k : N) (l : list (N * N)) : option N :=
-  match l with [] => None | (a, b) :: r => if N.eqb a k then Some b else assoc_c k r end.
-Fixpoint assoc_n (k : N) (l : list (N * nat)) : nat :=
-  match l with [] => O | (a, b) :: r => if N.eqb a k then b else assoc_n k r end.
-Definition hexval (h : str) : N := fold_left (fun a c => a * 16 + as_hex c) h 0.
-Fixpoint dq_decode (fuel : nat) (t : str) : option str :=
-  match fuel with
-  | O => None
-  | S f =>
-    match t with
-    | [] => Some []
-    | c :: r =>
-      if N.eqb c 92 then
-        match r with
-        | [] => None
-        | x :: r' =>
-          match assoc_c x escape_table with
-          | Some v => option_map (cons v) (dq_decode f r')
-          | None =>
-              let n := assoc_n x code_length_table in
-              let h := firstn n r' in
-              if Nat.eqb n 0 then None
-              else if Nat.eqb (length h) n && forallb is_hex h && is_usv (hexval h)
-                   then option_map (cons (hexval h)) (dq_decode f (skipn n r'))
-                   else None
-          end
-        end
-      else if N.eqb c 34 || is_break c then None
-      else option_map (cons c) (dq_decode f r)
-    end
-  end.
+(* the reading of the body of a one-line double-quoted scalar: Spec/QuotedLine.v (dq_decode) *)
 
 (* each table entry is a well-formed escape that the scanner decodes back to its key *)
 Definition esc_entry_ok (e : N * list N) : bool :=
@@ -274,67 +240,3 @@ Lemma special_floats_round_trip :
   /\ parse_from_cow [45;46;105;110;102]%N = SFloat (FInf true).
 Proof. repeat split; reflexivity. Qed.
 
-(* ---------------- the full tree-level statement (NOT proved: it needs a scanner/parser theorem per scalar style
-   and layout; T1-T4 above are its scalar-level ingredients) ----------------
-   Over the model of the loading pipeline (PipeL.run_load = scanner + parser + loader models): for every
-   well-formed tree whose scalar mapping keys are emitted in at most 1024 characters, with multiline_strings off
-   and either compact setting, the emitted text loads as exactly one document equal to the tree.  (Re-emission of
-   the reloaded tree giving the same text follows from equality for -0.0-free trees; it is checked on the
-   implementation.)  The restriction to multiline = false and to short keys is necessary: see the refutations. *)
-Open Scope N_scope.
-Definition C09_full : Prop :=
-  forall compact doc, wf_node doc = true -> (max_key_len false doc <=? 1024) = true ->
-                      round_trip_ok compact false doc = true.
-
-(* what is false about the faithful model (and the implementation: known findings K1-K5, G1) *)
-Definition str_a_lf_b : str := [97; 10; 98].
-Definition k1_witness := NMap [(NStr str_a_lf_b, NInt 7)].                 (* literal block as a mapping key *)
-Definition k2_witness := NSeq [NStr [32; 97; 10; 98]; NInt 7].             (* first content line starts with a space *)
-Definition k3_witness := NSeq [NStr [97; 10; 10]; NInt 7].                 (* two trailing line feeds *)
-Definition k4a_witness := NStr [9; 97; 10; 98].                            (* root block starting with a tab *)
-Definition k4b_witness := NStr [97; 10; 46; 46; 46].                       (* root block with a line "..." *)
-Definition k5_witness := NSeq [NStr [10]; NInt 7].                         (* only line feeds *)
-Definition g1_witness := NMap [(NStr (repeat 97 1025), NInt 7)].           (* implicit key of 1025 characters *)
-
-Lemma multiline_refuted_by w :
-  wf_node w = true -> (max_key_len true w <=? 1024) = true -> round_trip_ok true true w = false ->
-  exists compact doc, wf_node doc = true /\ (max_key_len true doc <=? 1024) = true
-                      /\ round_trip_ok compact true doc = false.
-Proof. intros A B C. exists true, w. auto. Qed.
-
-Theorem multiline_K1_refuted : exists compact doc, wf_node doc = true /\ (max_key_len true doc <=? 1024) = true
-                                                   /\ round_trip_ok compact true doc = false.
-Proof. apply (multiline_refuted_by k1_witness); vm_compute; reflexivity. Qed.
-Theorem multiline_K2_refuted : exists compact doc, wf_node doc = true /\ (max_key_len true doc <=? 1024) = true
-                                                   /\ round_trip_ok compact true doc = false.
-Proof. apply (multiline_refuted_by k2_witness); vm_compute; reflexivity. Qed.
-Theorem multiline_K3_refuted : exists compact doc, wf_node doc = true /\ (max_key_len true doc <=? 1024) = true
-                                                   /\ round_trip_ok compact true doc = false.
-Proof. apply (multiline_refuted_by k3_witness); vm_compute; reflexivity. Qed.
-Theorem multiline_K4a_refuted : exists compact doc, wf_node doc = true /\ (max_key_len true doc <=? 1024) = true
-                                                    /\ round_trip_ok compact true doc = false.
-Proof. apply (multiline_refuted_by k4a_witness); vm_compute; reflexivity. Qed.
-Theorem multiline_K4b_refuted : exists compact doc, wf_node doc = true /\ (max_key_len true doc <=? 1024) = true
-                                                    /\ round_trip_ok compact true doc = false.
-Proof. apply (multiline_refuted_by k4b_witness); vm_compute; reflexivity. Qed.
-Theorem multiline_K5_refuted : exists compact doc, wf_node doc = true /\ (max_key_len true doc <=? 1024) = true
-                                                   /\ round_trip_ok compact true doc = false.
-Proof. apply (multiline_refuted_by k5_witness); vm_compute; reflexivity. Qed.
-
-(* without the bound on key length the statement is false with multiline off, too *)
-Theorem long_key_refuted : exists compact doc, wf_node doc = true /\ round_trip_ok compact false doc = false.
-Proof. exists true, g1_witness. split; vm_compute; reflexivity. Qed.
-
-(* instances of C09_full that do hold (the statement is satisfiable and the model pipeline is not trivially failing) *)
-Definition sample_tree : node :=
-  NMap [(NStr [97; 32; 98], NSeq [NInt (-5); NStr [48; 111; 55]; NNull; NStr []; NStr [45; 32; 58]]);
-        (NSeq [NBool true], NMap []);
-        (NNull, NFloat [49; 46; 48]);
-        (NStr (repeat 97 1024), NStr [97; 10; 98])].
-Lemma sample_tree_ok :
-  wf_node sample_tree = true /\ (max_key_len false sample_tree <=? 1024) = true
-  /\ round_trip_ok true false sample_tree = true /\ round_trip_ok false false sample_tree = true.
-Proof. repeat split; vm_compute; reflexivity. Qed.
-(* ... and a multi-line string outside the defect classes does round-trip as a literal block *)
-Lemma literal_block_ok : round_trip_ok true true (NSeq [NStr [97; 10; 32; 98; 10]; NStr str_a_lf_b]) = true.
-Proof. vm_compute. reflexivity. Qed.
